@@ -1,4 +1,5 @@
 import Thanos.Model.Labels
+import Thanos.Model.BlockSet
 /-
   Specification-level model of a store (C07, C08, C10): what `Series`, `LabelNames` and `LabelValues`
   answer, for the local TSDB store (`pkg/store/tsdb.go`) and the object-storage store gateway
@@ -38,6 +39,8 @@ structure Block where
   mint : Int
   maxt : Int
   series : List Series
+  /-- downsampling resolution of the block (0 raw, 300000 5m, 3600000 1h) -/
+  res : Int
   deriving Repr
 
 structure Req where
@@ -48,6 +51,8 @@ structure Req where
   skipChunks : Bool
   /-- some matcher is `__name__="…"` (`MatchEqual`): LabelValues then adds no `label!=""` matcher -/
   nameEq : Bool
+  /-- `MaxResolutionWindow` of a Series request -/
+  maxRes : Int
   deriving Repr
 
 /-- `bucketBlockSet.labelMatchers`, `bucketBlock.FilterExtLabelsMatchers`, `matchesExternalLabels`:
@@ -97,10 +102,29 @@ inductive Res (α : Type) where
   | invalid
   deriving Repr
 
-/-- the blocks `BucketStore.Series` reads (`getFor` selects nothing for an inverted range; the label calls
-    have no such test) -/
+def distinctLabels : List Labels → List Labels
+  | [] => []
+  | l :: ls => l :: (distinctLabels ls).filter (· != l)
+
+/-- positions and blocks with the given external labels, as `BlockSet` blocks (the id is the position) -/
+def groupBlocks (ext : Labels) : Nat → List Block → List BlockSet.Block
+  | _, [] => []
+  | i, b :: bs =>
+    if b.ext == ext then ⟨i, b.res, b.mint, b.maxt, true⟩ :: groupBlocks ext (i + 1) bs
+    else groupBlocks ext (i + 1) bs
+
+/-- what `getFor` selects in the block set of one external label set (C15; the repaired `getFor`) -/
+def selectedIn (blocks : List Block) (r : Req) (ext : Labels) : List Block :=
+  let set := (BlockSet.addAll BlockSet.empty (groupBlocks ext 0 blocks)).1
+  match BlockSet.getFor true true set r.mint r.maxt r.maxRes with
+  | some sel => sel.filterMap (fun x => blocks[x.id]?)
+  | none => []
+
+/-- the blocks `BucketStore.Series` reads: per set of blocks with equal external labels what `getFor` selects for
+    the range and the maximum resolution of the request (nothing for an inverted range; the label calls look
+    at every block that overlaps instead) -/
 def selected (blocks : List Block) (r : Req) : List Block :=
-  if r.mint > r.maxt then [] else blocks.filter (blockOverlaps · r.mint r.maxt)
+  (distinctLabels (blocks.map (·.ext))).flatMap (selectedIn blocks r)
 
 /-- `BucketStore.Series` before merging: entries of all selected blocks -/
 def bucketSeries (blocks : List Block) (r : Req) : List Entry :=
@@ -370,10 +394,6 @@ def minOf : List Int → Int → Int
 def maxOf : List Int → Int → Int
   | [], d => d
   | x :: xs, d => maxOf xs (if x > d then x else d)
-
-def distinctLabels : List Labels → List Labels
-  | [] => []
-  | l :: ls => l :: (distinctLabels ls).filter (· != l)
 
 /-- the composition the harness builds: the TSDB store of the first block and the store gateway of all blocks -/
 def standardClients (blocks : List Block) : List Client :=
